@@ -18,8 +18,7 @@ PROP = {'engine': 'qf',
  'assumptions': ['the four wildcard/regex string operators delegate to StringMatcher (parameter `sm` of eval; property C15); the driver prints no prediction '
                  'for them',
                  'a raw-data filter that reaches a Message/pointer/tag field compares the bytes of a reference object (an address): no prediction',
-                 'archive_roundtrip assumes a well-formed filter (wf): operands of the operand width, 32-bit indices/counts/type codes, 8-bit operators, and '
-                 'no zero-length RawDataQueryFilter default (finding C14-rawdef-empty)',
+                 'archive_roundtrip assumes a well-formed filter (wf): operands of the operand width, 32-bit indices/counts/type codes, 8-bit operators',
                  'expression strings: lexer + parser are modelled (Filter/Lexer.lean, Filter/Parser.lean) and tied by the expr/exprt ops; atof is modelled '
                  'only on decimal literals that need no rounding (other operands: no prediction); parse_print is proved for the canonical (fully parenthesised, one blank after each token) spelling of printable trees',
                  'IEEE comparison of the hardware is modelled on bit patterns (sign-magnitude key, NaN unordered)'],
@@ -46,5 +45,5 @@ TEXT = {'design_ref': 'DESIGN.md section 4, C14',
  'note': 'Expression strings: lexer+parser modelled and tied by correspondence (expr/exprt ops, denotation oracle); parse_print proved for the canonical spelling only (other spellings: correspondence); atof only on '
          'literals needing no rounding.  The four wildcard/regex string operators are a parameter (C15).  Trusted: Lean kernel, the statement file, the '
          'harness (sampling), constants regenerated from /repo headers.  Archive field ORDER is canonicalised (name order) because SaveToArchive uses `a | b` '
-         'whose operand order is unspecified in C++.  Open finding kept in corpus/C14: zero-length RawDataQueryFilter default.  Fixed in /repo, regression ops kept in corpus/C14 (qf-regress-*.ops): expression field name kept '
+         'whose operand order is unspecified in C++.  Fixed in /repo, regression ops kept in corpus/C14 (qf-regress-*.ops): zero-length RawDataQueryFilter default dropped by SaveToArchive / NULL passed to memcmp; expression field name kept '
          'its :index/|default suffix (8495b83); lexer split names at embedded synonyms (b1d5b6e); ((x)) rejected (ef6af3a); Atoll negated INT64_MIN (3186549).'}
